@@ -4,6 +4,7 @@ import TeaalVerif.Props.C03Nest
 import TeaalVerif.Props.C03Static
 import TeaalVerif.Props.C03Chain
 import TeaalVerif.Props.C03Flat
+import TeaalVerif.Props.C03Chunk
 open Lean
 namespace Driver
 open Nest
@@ -205,6 +206,68 @@ def nestFlat (j : Json) : Except String Json := do
   let m := collect S (spec (levels S) (initTerms S env))
   let hyps := decide (C03.FlatHyps S env modes)
   let base := [("run", jPts r), ("spec", jPts m), ("expected_loops", jLoops (expectedLoopsFlat S modes)), ("hyps_ok", Json.bool hyps)]
+  match j.getObjVal? "tree" with
+  | .ok tj =>
+    let s ← HF.stmtOfJson tj
+    return Json.mkObj (base ++ [("actual_loops", jLoops (HF.loopSkeleton s))])
+  | .error _ => return Json.mkObj base
+
+/-- one entry of the loop list of a nest with an occupancy-partitioned flattened rank: an ordinary level (co-iterated or driven)
+    or a chunk level with its loop variable -/
+inductive EntryC where
+  | lvl (m : Mode)
+  | chunk (o t n : Nat) (name : String)
+
+def entryCOfJson (j : Json) : Except String EntryC := do
+  let a ← HF.arr j
+  match ← HF.strOf a[0]! with
+  | "lvl" => return .lvl (← modeOfJson a[1]!)
+  | "chunk" => return .chunk (← natOf a[1]!) (← natOf a[2]!) (← natOf a[3]!) (← HF.strOf a[4]!)
+  | k => throw s!"bad entry {k}"
+
+def levelsCOf : List (Bool × Nat) → List EntryC → List C03.LevelC
+  | (o, e) :: ls, .lvl m :: es => .lvl o e m :: levelsCOf ls es
+  | ls, .chunk o t n _ :: es => .chunk o t n :: levelsCOf ls es
+  | _, _ => []
+
+/-- skeleton: chunk loops over the driver's upper-level fibers; consecutive driven levels are one loop over the bottom-level fiber -/
+def expectedLoopsChunk (S : EinsumS) (es : List EntryC) : List (String × List String) :=
+  let tensors := match S.terms with
+    | [t] => t.tensors
+    | _ => []
+  let nameOf (o : Nat) : String := ((tensors[o]?.map (·.name)).getD "?").toLower
+  let emit (o : Nat) (v : String) (allOut : Bool) : String × List String :=
+    (v, (if allOut then [S.outName.toLower ++ "_" ++ v ++ "0"] else []) ++ [nameOf o ++ "_" ++ v ++ "0"])
+  let rec go : List (String × List String) → List String → List EntryC → Option (Nat × String × Bool) → List (String × List String)
+    | _, _, [], acc => match acc with
+      | some (o, v, ao) => [emit o v ao]
+      | none => []
+    | plain, rs, .chunk o _ _ name :: es, acc =>
+      (match acc with
+       | some (o', v', ao') => [emit o' v' ao']
+       | none => []) ++ (name, [nameOf o ++ "_" ++ name]) :: go plain rs es none
+    | (v, fs) :: rest, r :: rs, .lvl m :: es, acc =>
+      let isOut := S.outRanks.contains r
+      match m, acc with
+      | .drive o, some (o', v', ao') =>
+        if o = o' then go rest rs es (some (o, v' ++ v, ao' && isOut))
+        else emit o' v' ao' :: go rest rs es (some (o, v, isOut))
+      | .drive o, none => go rest rs es (some (o, v, isOut))
+      | .co, some (o', v', ao') => emit o' v' ao' :: (v, fs) :: go rest rs es none
+      | .co, none => (v, fs) :: go rest rs es none
+    | _, _, _, _ => []
+  go (expectedLoops S) S.loop es none
+
+/-- op `nest_chunk`: product Einsum with a flattened tuple and occupancy levels on the flattened rank -/
+def nestChunk (j : Json) : Except String Json := do
+  let (S, env) ← einsumSOfJson j
+  let es ← listOf entryCOfJson (← fld j "entries")
+  let lc := levelsCOf (levels S) es
+  let contribs := C03.runC C03.kEmit lc (initTerms S env)
+  let r := collect S contribs
+  let m := collect S (spec (levels S) (initTerms S env))
+  let hyps := decide (C03.ChunkHyps S env lc)
+  let base := [("run", jPts r), ("spec", jPts m), ("expected_loops", jLoops (expectedLoopsChunk S es)), ("hyps_ok", Json.bool hyps)]
   match j.getObjVal? "tree" with
   | .ok tj =>
     let s ← HF.stmtOfJson tj
